@@ -309,10 +309,15 @@ def install(E):
     def strspn_f(reject):
         def f(E, st, fr, I, A):
             s_ = cchars(E, st, A[0]); set_ = cchars(E, st, A[1])
-            if any(is_sym(x) for x in s_ + set_): raise Unsupported('symbolic strspn/strcspn')
             n = 0
             for x in s_:
-                if (x in set_) == reject: break
+                if not is_sym(x) and not any(is_sym(y) for y in set_): member = x in set_
+                else:
+                    cond = z3.Or(*[bv(x, 8) == bv(y, 8) for y in set_]) if set_ else z3.BoolVal(False)
+                    if _definitely(E, st, cond): member = True
+                    elif _definitely(E, st, z3.Not(cond)): member = False
+                    else: raise NeedFork(cond)
+                if member == reject: break
                 n += 1
             return n
         return f
